@@ -11,6 +11,8 @@ import BumpVerif.Gen.FnSlow
 import BumpVerif.Gen.FnIter
 import BumpVerif.Gen.FnRawVec
 import BumpVerif.Gen.FnRewind
+import BumpVerif.Gen.FnVec
+import BumpVerif.Model.Vec
 /-!
 Model-level witness search, run by `./check` when one of the equivalence theorems of `Props/GenFn*.lean` no longer
 checks: every translated function (`Gen.Fn.*`, regenerated from the current source) is evaluated side by side with the
@@ -144,5 +146,33 @@ def main : IO Unit := do
   out := add (firstDiff "RawVec::try_reserve" (rvs.map fun (c, v, u, e) =>
     (s!"esz={c.esz} allocOk={c.allocOk} cap={v.cap} used={u} extra={e}", showV (Gen.Fn.rv_try_reserve c u e v),
       showV (match V.reserveGen c v u e false with | .ok v' => (v', Outcome.ok (Except.ok ())) | .error er => (v, .ok (.error er)))))) out
+  -- Vec methods on small vectors (a few with an uninitialised slot inside the length, i.e. already broken)
+  let el (i : Nat) : V.Elem := ⟨i, 10 * i⟩
+  let vcfgs : List V.Cfg := [{ esz := 16, eal := 8 }, { esz := 0, eal := 1 }, { esz := 8, eal := 8, allocOk := false },
+    { esz := 16, eal := 8, dropPanicAt := some 0 }, { esz := 16, eal := 8, needsDrop := false }]
+  let vecs : List V.VS := [⟨[], 0, 0⟩, ⟨[some (el 1), none, none, none], 1, 4⟩, ⟨[some (el 1), some (el 2), some (el 3), none], 3, 4⟩,
+    ⟨[some (el 1), some (el 2), some (el 3), some (el 4)], 4, 4⟩, ⟨[some (el 1), none, some (el 3), none], 3, 4⟩,
+    ⟨[some (el 1), some (el 2)], 2, 2⟩, ⟨[some (el 1), some (el 2), some (el 3)], 2, 3⟩]
+  let w0 : V.W := {}
+  let showM := fun {α : Type} [Repr α] (r : V.VS × V.W × Option α) =>
+    if r.2.1.bad.isEmpty then s!"{repr r.1} evs={repr r.2.1.evs} drops={r.2.1.dropCalls} res={repr r.2.2}" else "bad"
+  let vc := vcfgs.flatMap fun c => vecs.map fun v => (c, v)
+  let vtag := fun (c : V.Cfg) (v : V.VS) => s!"esz={c.esz} allocOk={c.allocOk} dropPanicAt={repr c.dropPanicAt} needsDrop={c.needsDrop} vec={repr v}"
+  out := add (firstDiff "Vec::push" (vc.map fun (c, v) =>
+    (vtag c v, showM (RsM.toModel (Gen.Fn.vec_push c (el 9) (v, w0))), showM (V.push c v (el 9) w0)))) out
+  out := add (firstDiff "Vec::pop" (vc.map fun (c, v) =>
+    (vtag c v, showM (match Gen.Fn.vec_pop c (v, w0) with
+        | (s, .ok x) => (s.1, s.2, x) | (s, .bad why) => (s.1, s.2.flag why, none) | (s, _) => (s.1, s.2.flag "panic", none)),
+      showM (V.pop v w0)))) out
+  let vci := vc.flatMap fun (c, v) => [0, 1, 2, 3, 4, 5].map fun i => (c, v, i)
+  out := add (firstDiff "Vec::insert" (vci.map fun (c, v, i) =>
+    (vtag c v ++ s!" index={i}", showM (RsM.toModel (Gen.Fn.vec_insert c i (el 9) (v, w0))), showM (V.insert c v i (el 9) w0)))) out
+  out := add (firstDiff "Vec::remove" (vci.map fun (c, v, i) =>
+    (vtag c v ++ s!" index={i}", showM (RsM.toModel (Gen.Fn.vec_remove c i (v, w0))), showM (V.remove c v i w0)))) out
+  out := add (firstDiff "Vec::swap_remove" (vci.map fun (c, v, i) =>
+    (vtag c v ++ s!" index={i}", showM (RsM.toModel (Gen.Fn.vec_swap_remove c i (v, w0))), showM (V.swapRemove c v i w0)))) out
+  out := add (firstDiff "Vec::reserve" (vci.map fun (c, v, i) =>
+    (vtag c v ++ s!" additional={i}", showM (RsM.toModel (Gen.Fn.vec_reserve c i (v, w0))),
+      showM (match V.rawReserve c v v.len i with | some v' => (v', w0, some ()) | none => (v, w0, none))))) out
   for l in out do IO.println l
   IO.println s!"GENDIFF-DONE mismatches={out.length}"
